@@ -24,7 +24,7 @@ import sx
 from common import (COQ, Verdict, proof_stage, repo_blob_ids, write_evidence, TRUSTED_BASE)
 
 PROP = 'C17'
-PROOF_FILES = [f for f in ['theories/Copy.v', 'proofs/C17Proofs.v', 'proofs/EditProofs.v', 'proofs/CopyProofs.v'] if os.path.exists(os.path.join(COQ, f))]
+PROOF_FILES = [f for f in ['theories/Copy.v', 'proofs/C17Proofs.v', 'proofs/EditProofs.v', 'proofs/CopyProofs.v', 'proofs/WrapProofs.v'] if os.path.exists(os.path.join(COQ, f))]
 
 
 def mk_scn(sc):
@@ -322,20 +322,30 @@ def main(tier, seed):
     for s0 in range(0, len(usable), shard):
         fn = '%s/copycases_%d.v' % (d, s0 // shard)
         with open(fn, 'w') as f:
-            f.write('From Sismic Require Import Base Chart Edit Copy.\nOpen Scope string_scope.\nOpen Scope list_scope.\n')
+            f.write('From Coq Require Import NArith List.\nFrom Sismic Require Import Base Chart Edit Copy.\nFrom SismicProofs Require WrapProofs.\n'
+                    'Open Scope string_scope.\nOpen Scope list_scope.\n')
             f.write('Definition cases : list ccase := [\n')
             f.write(';\n'.join('(mkCCase %s %s %s %s %s %s %s)' % (
                 tocoq.c_chart(c['host']), tocoq.c_chart(c['guest']), cstr(c['source']), cstr(c['replace']),
                 clist(c['rho'], lambda kv: '(%s, %s)' % (cstr(kv[0]), cstr(kv[1]))), c['res'], tocoq.c_chart(c['post']))
                 for c in usable[s0:s0 + shard]))
             f.write('\n].\nEval vm_compute in (check_ccases cases).\n')
+            # the hypotheses of the embedding theorems (WrapProofs.wrap_ok, decidable form) on the guests that were plugged in
+            f.write('Eval vm_compute in [N.of_nat (length (filter (fun c => WrapProofs.wrap_okb (cc_guest c) (cc_source c) "hroot") cases)); '
+                    'N.of_nat (length cases)].\n')
         files.append(fn)
     copy_bits = {}
+    wrap_hyp = [0, 0]
     for k, (fn, rc, out) in enumerate(coq_eval_files(PROP, files)):
         if rc != 0:
             n_viol += 1
             v.violation(dict(property=PROP, broken='correspondence file did not evaluate', file=fn, log=out[-2000:]), tag='coq', no_input=True)
             continue
+        import re as _re
+        h = _re.search(r'\[(\d+)%N;\s*(\d+)%N\]', out)
+        if h:
+            wrap_hyp[0] += int(h.group(1))
+            wrap_hyp[1] += int(h.group(2))
         for i, m in parse_pairs(out):
             c = usable[k * shard + i]
             cl = []
@@ -352,6 +362,7 @@ def main(tier, seed):
                              how_to_replay='the statecharts are given as plain data (states, parent, children, transitions in dictionary order)'),
                         tag='copym%d' % (k * shard + i))
     stats['copy_cases_against_the_model'] = len(usable)
+    stats['guests_satisfying_wrap_okb'] = '%d of %d' % tuple(wrap_hyp)
     stats['copy_cases_refused'] = sum(1 for c in usable if c['res'] != 'EOk')
     if not info.get('build_ok') or not info.get('ok') or info.get('forbidden_tokens'):
         if n_viol == 0:
